@@ -26,6 +26,7 @@ def main(tier):
     chk.run("R-SELFIMPORT", DR.selfimport, r, floor=2)
     chk.run("R-DEPTWIN", P.deptwin, r, s, cx.sites, floor=2)
     chk.run("R-SKIPLOSS", T.skiploss, r, s, cx.sites, modules=("dependency_checker.py",), floor=4)
+    chk.run("R-TRAVROOT", T.travroot, r, s, cx.sites, modules=("dependency_checker.py",), floor=4)
     chk.run("R-NAMEDKINDS", P.namedkinds, r, s, cx.sites, floor=10)
     chk.run("R-DEPORDER", B.deporder, r, clauses=("text", "ok"), floor=3)
     chk.run("R-CYCLEPATH", DR.cyclepath, cx.repo, floor=2)
